@@ -18,14 +18,15 @@ PID = "C18"
 META = dict(
     level="other",
     stubs=["uset['nasset'].values -> object array of symbolic 32-bit vectors (stub table)",
-           ".astype(np.int64) on symbolic integer arrays -> identity (AST hook, n2p.mkdofpv / expanddof)"],
+           ".astype(np.int64) on symbolic integer arrays -> identity (AST hook, n2p.mkdofpv / expanddof / make_uset)",
+           "make_uset: pandas itself, except that the new table's nasset column is created with dtype object so that it can hold the symbolic set words"],
     bounds=dict(quick="lattice: all 8 base sets x 6 free user bits (one BV query per set expression); mksetpv: 2-3 rows x 66 (major, minor) pairs; "
                       "mkdofpv: 3 table rows x 2 requests, ids in [1,4]; locate helpers: vectors of 3-4 symbolic ints in small ranges",
                 thorough="mksetpv 3 rows x all pairs; mkdofpv 4 rows x 2 requests / 3 x 3; locate vectors up to 5"),
-    outside=["make_uset / DataFrame-indexed paths of mkdofpv (pandas index machinery)", "mat_intersect (void-dtype byte views)",
+    outside=["make_uset's coordinate columns and string set names; DataFrame-indexed paths of mkdofpv (pandas index machinery)", "mat_intersect (void-dtype byte views)",
              "find_subseq (np.correlate)"],
     assumptions=["a USET row's set word is one base-set mask of mkusetmask() plus arbitrary user-set bits (what make_uset / the op2 reader store after clearing)"],
-    reach_required=["lattice", "mksetpv-raise", "mksetpv-ok", "mkdofpv-missing", "mkdofpv-found", "expand-123456", "locate"],
+    reach_required=["make-uset", "lattice", "mksetpv-raise", "mksetpv-ok", "mkdofpv-missing", "mkdofpv-found", "expand-123456", "locate"],
 )
 
 BASE = ["m", "s", "o", "q", "r", "c", "b", "e"]
@@ -367,6 +368,8 @@ def job(kind, *args, split_depth=None, roots=None):
         fn = mkdofpv_fn(*args)
     elif kind == "locate":
         fn = locate_fn(*args)
+    elif kind == "makeuset":
+        fn = makeuset_fn(*args)
     eng = E.Engine()
     res = eng.explore(fn, max_cex=3, roots=roots, split_depth=split_depth)
     res["note"] = "%s %s" % (kind, args)
@@ -374,7 +377,7 @@ def job(kind, *args, split_depth=None, roots=None):
         rs = res.pop("roots")
         res["spawn"] = [("%s-%s-sub%d" % (kind, args, i), job, (kind,) + tuple(args), dict(roots=rs[i::24])) for i in range(24) if rs[i::24]]
     res["roots"] = []
-    H.triage(res, kind, REPLAY[kind], lambda c: dict(args=list(args), model=c["model"], labels=c["labels"]))
+    H.triage(res, kind, REPLAY[kind], lambda c: dict(args=list(args), layout=(args[0] if kind == "makeuset" else None), model=c["model"], labels=c["labels"]))
     return res
 
 
@@ -531,12 +534,100 @@ def replay_locate(p):
     return (True, bad) if bad else (False, "%s ok" % which)
 
 
-REPLAY = {"lattice": replay_lattice, "mksetpv": replay_mksetpv, "mkdofpv": replay_mkdofpv, "locate": replay_locate}
+# ---------------------------------------------------------------------------
+# make_uset: every DOF of the table carries the set word given for it (compact GRID rows, GRIDs given as six explicit
+# rows, scalar points), whatever the words are
+
+MU_LAYOUTS = {
+    # rows of (id, dof code): 123456 = compact GRID, 1..6 = explicit GRID rows, 0 = SPOINT
+    "compact-expanded-spoint": [(1, 123456), (2, 1), (2, 2), (2, 3), (2, 4), (2, 5), (2, 6), (3, 0)],
+    "expanded-first": [(7, 1), (7, 2), (7, 3), (7, 4), (7, 5), (7, 6), (8, 0), (9, 123456), (10, 0)],
+    "two-expanded": [(4, 1), (4, 2), (4, 3), (4, 4), (4, 5), (4, 6), (5, 1), (5, 2), (5, 3), (5, 4), (5, 5), (5, 6), (6, 123456)],
+}
+
+
+def _mu_expected(layout, words):
+    out = []
+    for (i, code), w in zip(layout, words):
+        if code == 123456:
+            out += [(i, d, w) for d in range(1, 7)]
+        else:
+            out.append((i, code, w))
+    return out
+
+
+def makeuset_fn(name):
+    def fn(eng):
+        S.set_engine(eng)
+        from vsym import astload
+        n2p = _n2p()
+        import pandas as _pd
+
+        class PD:
+            """pandas, except that the `nasset` column of a new table is created with dtype object so that it can hold symbolic words"""
+            MultiIndex = _pd.MultiIndex
+
+            @staticmethod
+            def DataFrame(*a, **k):
+                df = _pd.DataFrame(*a, **k)
+                if "nasset" in df.columns:
+                    df["nasset"] = df["nasset"].astype(object)
+                return df
+        f = astload.load(n2p.make_uset, hooks=("astype",), extra=dict(pd=PD))
+        layout = MU_LAYOUTS[name]
+        ws = [z3.Int("w%d" % k) for k in range(len(layout))]
+        for w in ws:
+            eng.assume(z3.And(w >= 1, w < 2 ** 31))
+        nasset = np.empty(len(layout), dtype=object)
+        for k, w in enumerate(ws):
+            nasset[k] = S.SymI(w)
+        info = dict(layout=name)
+        try:
+            import warnings
+            with warnings.catch_warnings():
+                warnings.simplefilter("ignore")
+                df = f(np.array(layout), nasset)
+        except E.Inconclusive:
+            raise
+        except Exception as ex:
+            import traceback
+            return [E.Obl("make_uset raises %r (%s)" % (ex, traceback.format_exc()[-300:]), False, info=info)]
+        eng.tag("make-uset")
+        want = _mu_expected(layout, ws)
+        obls = [E.Obl("make_uset: one row per DOF, in input order (%s)" % (list(df.index)[:8],), [tuple(int(v) for v in ix) for ix in df.index] == [(i, d) for i, d, _ in want], info=info)]
+        if len(df) != len(want):
+            return obls
+        for k, (i, d, w) in enumerate(want):
+            obls.append(E.Obl("make_uset: DOF %d of id %d carries the set word given for it" % (d, i), S.lift(df.iloc[k, 0]) == w, info=info))
+        return obls
+    return fn
+
+
+def replay_makeuset(p):
+    n2p = _n2p()
+    layout = MU_LAYOUTS[p["layout"]]
+    mdl = p["model"]
+    # distinct base-set words where the model leaves them equal or free
+    base = [2097154, 4194304, 2, 4, 1024, 1, 256, 512, 64, 2048, 8, 16, 32]
+    words = []
+    for k in range(len(layout)):
+        v = mdl.get("w%d" % k)
+        words.append(int(v) if v is not None and int(v) not in words else base[k % len(base)] + (k // len(base)))
+    df = n2p.make_uset(np.array(layout), np.array(words))
+    want = _mu_expected(layout, words)
+    got = [(int(i), int(d), int(w)) for (i, d), w in zip(df.index, df["nasset"].values)]
+    if got != want:
+        bad = [(a, b) for a, b in zip(got, want) if a != b][:3]
+        return True, "make_uset(%s, nasset=%s): (id, dof, set word) rows differ from the assignment, e.g. got %s for %s" % (layout, words, bad[0][0] if bad else got, bad[0][1] if bad else want)
+    return False, "make_uset fine on the real code"
+
+
+REPLAY = {"makeuset": replay_makeuset, "lattice": replay_lattice, "mksetpv": replay_mksetpv, "mkdofpv": replay_mkdofpv, "locate": replay_locate}
 
 
 def jobs(tier, seed):
     q = tier == "quick"
-    out = [H.Job("lattice", job, "lattice", weight=1)]
+    out = [H.Job("lattice", job, "lattice", weight=1)] + [H.Job("make-uset-%s" % nm, job, "makeuset", nm, weight=3) for nm in MU_LAYOUTS]
     sets = ["p", "g", "n", "f", "a", "t", "l", "b", "q", "m", "s", "o", "r", "c", "e", "a+o", "b+m", "u1", "q+u2"]
     pairs = [(a, b) for a in sets for b in sets if a != b]
     if q:
@@ -562,6 +653,6 @@ def jobs(tier, seed):
 def extra_coverage(results):
     import pyyeti.locate as L
     n2p = _n2p()
-    fns = [n2p.mkusetmask, n2p.mksetpv, n2p.mkdofpv, n2p.expanddof, L.find_vals, L.find_duplicates, L.find_rows, L.index2bool,
+    fns = [n2p.make_uset, n2p.mkusetmask, n2p.mksetpv, n2p.mkdofpv, n2p.expanddof, L.find_vals, L.find_duplicates, L.find_rows, L.index2bool,
            L.index2slice, L.flippv, L.find_unique, L.list_intersect, L.merge_lists]
     return dict(functions_encoded=[H.fn_id(f) for f in fns], ast_hook_hits={"%s:%s" % k: v for k, v in astload.HITS.items()})
